@@ -44,7 +44,7 @@ ASAN_FLAGS = [
 ]
 # memory-safety subset of UBSan only (see DESIGN.md section 2)
 UBSAN_FLAGS = ["-fsanitize=bounds,null,return,unreachable", "-fno-sanitize-recover=undefined"]
-ASAN_ENV = "halt_on_error=0:detect_leaks=1:allocator_may_return_null=1:detect_stack_use_after_return=1:abort_on_error=0:exitcode=0"
+ASAN_ENV = "halt_on_error=0:detect_leaks=1:allocator_may_return_null=1:abort_on_error=0:exitcode=0"
 
 
 class HarnessError(Exception):
